@@ -248,7 +248,15 @@ func (g *progGen) compStmt(depth int) *tw.Stmt {
 			}
 		}
 		keys = append(keys, a)
-		vals = append(vals, g.literalOf(k))
+		val := g.literalOf(k)
+		// an argument's value may name the caller's variables - also ones that are keys of this argument object
+		for _, other := range assignNames {
+			if ok2, vis := g.visibleKind(other); vis && ok2 == k && other != a && rapid.IntRange(0, 3).Draw(g.rt, "argFromName") == 0 {
+				val = tw.Var(other)
+				break
+			}
+		}
+		vals = append(vals, val)
 		kinds[a] = k
 	}
 	if len(keys) > 0 || rapid.Bool().Draw(g.rt, "emptyArgObj") {
@@ -375,6 +383,9 @@ func (g *progGen) eachStmt(depth int) *tw.Stmt {
 			arr, ek = tw.Var("ai"), refint.KInt
 			if rapid.Bool().Draw(g.rt, "strArr") {
 				arr, ek = tw.Var("as"), refint.KStr
+			}
+			if _, has := g.env.Model["ns"]; has && rapid.IntRange(0, 3).Draw(g.rt, "nilSlice") == 0 {
+				arr, ek = tw.Var("ns"), refint.KStr // a nil Go slice: an array of length 0
 			}
 			g.Feat["each-data-array"]++
 			break
@@ -717,6 +728,7 @@ func genProgEnv() *rapid.Generator[*dataEnv] {
 	return rapid.Custom(func(rt *rapid.T) *dataEnv {
 		e := genDataEnv().Draw(rt, "base")
 		e.add("ea", spec.Slice(spec.T(spec.TInt)))
+		e.add("ns", &spec.Value{T: spec.SliceOf(spec.T(spec.TString)), Nil: true}) // a nil Go slice is an empty array
 		e.add("eo", spec.Map(spec.T(spec.TInt), nil, nil))
 		e.add("np", spec.NilPtr(spec.T(spec.TInt)))
 		for _, n := range assignNames {
